@@ -34,8 +34,10 @@ RULE = ("one seeded PRNG draws script trees (random shapes, balanced, left/right
         "the Lean model; non-trivial = the implementation answered (did not refuse); distinct = distinct "
         "(stream, op line).  Oracles are evaluated on the real code alone.")
 TRUSTED = ["SHA-256 / tagged hash of the model is executable Lean validated against hashlib each run (hash.* streams)",
-           "T1/T2 over the raw arithmetic rest on C01's `Lawful (opsSub K)` plus the named assumption that secp256k1 has "
-           "cofactor one (`SecpCofactorOne`); T3 needs no group assumption (`LiftEven (EC.ops C)` is proved)",
+           "T1/T2 over the raw arithmetic of secp256k1 carry no curve-level hypothesis (C01's `Lawful (opsSub K)`, the "
+           "discriminant, primality of p, n and cofactor one `Btc.E2E.secpCofactorOne` are all proved); for another curve "
+           "they take `hcof` (cofactor one) as an explicit hypothesis; T3 needs no group assumption (`LiftEven (EC.ops C)` is proved)",
+           "a list in script position that is not a command list is taproot.serialize's to judge (Err.codec): outside the model, not streamed",
            "taproot.serialize (command list -> tapscript bytes) is outside this property: leaves are compared as bytes",
            "collision resistance of the tagged hash: soundness is a REDUCTION to an explicit collision / tweak alias"]
 ASSUMPTIONS = ["libsecp256k1's xonly tweak functions are compared with the model, not verified"]
@@ -753,23 +755,48 @@ def _o_engine(w):
     return True, f"leaf version {version:#x}: {n} spends"
 
 
-def _o_zero_padded(w):
-    """a key altered by a leading zero byte must no longer verify (it does: integer comparison — known finding)"""
+def _zero_padded_probe(w):
+    """('accepted' | 'rejected' | 'other', detail): does check_output_pubkey verify 00‖q / 0000‖q ?  'other' = anything
+    that is NOT the known finding (the unaltered triple fails, an exception, a non-bool answer)"""
     sec = bytes.fromhex(w["sec"])
     tree = tree_of(w["tree"])
     bad = []
-    for a in ("lib", "py"):
-        with arm(a):
-            q, _ = T.output_pubkey(sec, tree)
-            script, c = T.input_script_sig(sec, tree, 0)
-            s = T.serialize(list(script))
-            if T.check_output_pubkey(q, s, c) is not True:
-                return False, "the unaltered triple does not verify"
-            for alt in (b"\x00" + q, b"\x00\x00" + q):
-                r = _call(T.check_output_pubkey, alt, s, c)
-                if r == ("ok", True):
-                    bad.append(f"{a}:{len(alt)} octets")
-    return not bad, ("check_output_pubkey verifies a zero-padded output key: " + ", ".join(bad)) if bad else "rejected"
+    try:
+        for a in ("lib", "py"):
+            with arm(a):
+                q, _ = T.output_pubkey(sec, tree)
+                script, c = T.input_script_sig(sec, tree, 0)
+                s = T.serialize(list(script))
+                if T.check_output_pubkey(q, s, c) is not True:
+                    return "other", f"{a}: the unaltered triple does not verify"
+                for alt in (b"\x00" + q, b"\x00\x00" + q):
+                    r = _call(T.check_output_pubkey, alt, s, c)
+                    if r == ("ok", True):
+                        bad.append(f"{a}:{len(alt)} octets")
+                    elif r != ("ok", False) and not (r[0] == "err" and r[1] in ("err key", "err badlen", "err toolong", "err tweak")):
+                        return "other", f"{a}: check_output_pubkey on a {len(alt)}-octet key -> {r}"
+    except Exception as e:  # noqa: BLE001
+        return "other", f"raised {type(e).__name__}: {str(e)[:200]}"
+    if bad:
+        return "accepted", "check_output_pubkey verifies a zero-padded output key: " + ", ".join(bad)
+    return "rejected", "rejected"
+
+
+def _o_zero_padded(w):
+    """KEYED (known finding taproot.check_output_pubkey.zero_padded_key_accepted): fails ONLY when a key altered by a
+    leading zero byte still verifies (it does: integer comparison).  Anything else that goes wrong with the same witness
+    is NOT filed under the key: it fails the unkeyed oracle key.zero_padded.sane"""
+    st, detail = _zero_padded_probe(w)
+    if st == "other":
+        return True, "n/a (see key.zero_padded.sane): " + detail
+    return st == "rejected", detail
+
+
+def _o_zero_padded_sane(w):
+    """UNKEYED: with the witness of key.zero_padded the unaltered triple verifies and every answer for the padded keys is
+    a bool or a library refusal — an exception or a foreign answer here is a NEW finding, not the known one"""
+    st, detail = _zero_padded_probe(w)
+    return st != "other", detail
 
 
 def _o_desc_ranged(w):
@@ -866,7 +893,7 @@ def _guard(fn):
 ORACLES = {"cb.proves": _o_proves, "cb.bitflip": _o_bitflip, "tweak.agree": _o_agree, "key.refused": _o_refuse,
            "tweak.range": _o_tweak_range, "backends.agree": _o_backends, "desc.tr": _o_desc, "bip341.vector": _o_bip341,
            "bip341.keypath": _o_keypath, "engine.spend": _o_engine,
-           "key.zero_padded": _o_zero_padded, "desc.ranged": _o_desc_ranged}
+           "key.zero_padded": _o_zero_padded, "key.zero_padded.sane": _o_zero_padded_sane, "desc.ranged": _o_desc_ranged}
 ORACLES = {k: _guard(v) for k, v in ORACLES.items()}
 
 
@@ -981,8 +1008,9 @@ def run(ctx):
             L["outprvroot"].append(f"outprvroot@{a} {d} {hx(common.rand_bytes(rng, rng.choice([0, 32, 32, 5])))}")
             ctx.check("tweak.agree", {"d": str(d), "tree": "-", "arm": a, "secs": [s.hex() for _, s in spellings(rng, d)]})
     # the output key is compared as an integer: ONE keyed oracle, deterministic witness (known finding)
-    ctx.check("key.zero_padded", {"sec": "02" + f"{mult(1)[0]:064x}", "tree": stk0},
-              key="taproot.check_output_pubkey.zero_padded_key_accepted")
+    zp = {"sec": "02" + f"{mult(1)[0]:064x}", "tree": stk0}
+    ctx.check("key.zero_padded.sane", zp)          # unkeyed: anything but the specific failure lands here
+    ctx.check("key.zero_padded", zp, key="taproot.check_output_pubkey.zero_padded_key_accepted")
     # an EMPTY internal key is Python-falsy: btclib falls back to the NUMS point exactly as for None
     for kind, tree in trees[:6] + trees[-3:]:
         tk = tok_of(tree)
